@@ -433,6 +433,11 @@ pub fn gen_op(m: &Model, p: &Profile, seed: &OpSeed) -> Option<Op> {
             v.push(Op::Line(a, format!("PASS {}", pw)));
             v.push(Op::Line(b, format!("PASS {}", pw)));
         }
+        // sometimes the claimant negotiates capabilities first (registration completes at CAP END)
+        let capneg = s.chance(25);
+        if capneg {
+            v.push(Op::Line(a, ["CAP LS 302", "CAP REQ :multi-prefix"][s.pick(2)].to_string()));
+        }
         v.push(Op::Line(a, format!("NICK {}", n)));
         match s.pick(3) {
             0 => {
@@ -451,6 +456,9 @@ pub fn gen_op(m: &Model, p: &Profile, seed: &OpSeed) -> Option<Op> {
             }
         }
         v.push(Op::Line(a, format!("USER u{} 0 * :Real c{}", a, a)));
+        if capneg {
+            v.push(Op::Line(a, "CAP END".to_string()));
+        }
         // what the refused connection does next
         match s.pick(7) {
             0 => v.push(Op::Line(a, GATED[s.pick(GATED.len())].to_string())),
